@@ -360,7 +360,11 @@ func (r *runner) runShard(shard, nshards int) *workerResult {
 			hung := 0
 			for i := 0; i < 2; i++ {
 				itag := fmt.Sprintf("%s-iso%d-%d", r.label, k, i)
-				e, kl := r.spawn(itag, 0, 1, k, 0, 45, 3*time.Minute)
+				isoLimit := 45
+				if r.plan.CaseTimeout > isoLimit {
+					isoLimit = r.plan.CaseTimeout // a plan whose cases legitimately run long keeps its own limit
+				}
+				e, kl := r.spawn(itag, 0, 1, k, 0, isoLimit, 6*time.Minute)
 				if e == 3 || kl {
 					hung++
 				} else if e == 5 {
